@@ -129,8 +129,10 @@ fn c02_o2b_signed_announce_key_lengths() {
 }
 
 //@ ob: C02.O2c
-//@ tier: thorough
-//@ cap: 900
+//@ tier: quick
+//@ cap: 800
+//@ rss: 2.0
+//@ time: 82
 //@ also: C03 C05
 //@ desc: malformed signature lengths are rejected without panic and without any verification (signature length in {0, 63, 65}) with a well-formed key, on both the request and the response path
 //@ bounds: signature lengths 0, 63, 65 (one concrete call each), concrete valid key, request/response path symbolic; unwind 130 (concrete point decompression)
